@@ -51,7 +51,8 @@ CLAIM = dict(
          "parsed child numbers; the path parser accepts exactly m|M (/ digits ['|h|H])* with unmarked < 2^32, marked < 2^31; "
          "hardened-from-public, depth 255, private-from-public and malformed paths are errors and nothing panics, for all byte "
          "strings and path texts; the I_L check is exactly 0 < I_L < n. The model is tied to the code on every run by a "
-         "differential check against an independent Lean HMAC-SHA512 + secp256k1 (BIP-32 vectors 1-3, ~3 400 cases quick, ~31 000 thorough).",
+         "differential check against an independent Lean HMAC-SHA512 + secp256k1 (BIP-32 vectors 1-3, ~3 900 cases quick, ~31 000 thorough), "
+         "incl. runs of the same key material under another network / depth derived one after the other in one process.",
     note="Found and repaired on the pinned tree: derive_public_key added the offset point to itself (every public derivation "
          "wrong); path 'M' from a private master returned the private key; the parser accepted doubled hardened markers and a "
          "leading '+'. is_private_key_valid alone accepts some values >= n (byte-wise 'any position below' test); harmless "
